@@ -177,6 +177,15 @@ class C01(Prop):
                                 expects.append(['complete', list(key), outs])
                                 del outstanding[key]
                                 done.append((key, send))
+                            elif variant < 0.78:
+                                # ids that cannot be ordered among themselves (null - what 2.0 prescribes when the peer could not
+                                # determine a member's id -, a string): such an array answers no batch we sent
+                                odd = dict(send[-1])
+                                odd['id'] = rng.choice([None, 'a', str(odd.get('id'))])
+                                arr = send[:-1] + [odd] if len(send) > 1 else [odd, response_payload(rng, pname, 9999, ['res', 0])]
+                                rng.shuffle(arr)
+                                ops.append(['receive', list(json.dumps(arr).encode())])
+                                expects.append(['reject'])
                             elif variant < 0.85 and len(send) > 1:
                                 ops.append(['receive', list(json.dumps(send[:-1]).encode())])
                                 expects.append(['reject'])
